@@ -180,7 +180,18 @@ def worker_batch(job: dict) -> dict:
               for kk, vv in run.rt.probes.items():
                   probes[kk] += vv
               for w in run.fired:
-                  faults_fired[f"{w[0]}:{w[1]}"] += 1
+                  faults_fired[{"late:exc": "F1_node_raises_late", "early:exc": "F1_node_raises_early", "late:base": "F2_node_raises_BaseException",
+                                "early:base": "F2_node_raises_BaseException", "cancel:F5": "F5_await_cancelled"}.get(f"{w[0]}:{w[1]}", f"{w[0]}:{w[1]}")] += 1
+              if strategy == "stall":
+                  faults_fired["F3_stalled_node_schedule"] += 1
+              if k:
+                  faults_fired["F7_done_set_order_permuted"] += 1
+              for kk in ("F4_delayed_start_overtaken", "describe_paused"):
+                  if run.rt.probes.get(kk):
+                      faults_fired["F8_build_paused_or_failed" if kk == "describe_paused" else kk] += run.rt.probes[kk]
+              n_rerun = sum(1 for e in expects.values() if e.kind == "rerun")
+              if n_rerun:
+                  faults_fired["F9_executor_second_run"] += n_rerun
               if run.status != "ok":
                   stats["status_" + run.status] += 1
               nd, conc = node_level_digest(run)
